@@ -33,8 +33,8 @@ import (
 
 type job struct {
 	Faults   bool   `json:"faults,omitempty"` // scenario a with one injected JSON-RPC fault (error paths of a partitioned load)
-	Scenario string `json:"scenario"` // a: one task, partitions; b: two tasks one client; c: b + head poller ticks; d: b + growth + reorg; e: phased poller announcements around cached-head reads
-	Shapes   string `json:"shapes"`   // e.g. "L1" or "L1+T1"
+	Scenario string `json:"scenario"`         // a: one task, partitions; b: two tasks one client; c: b + head poller ticks; d: b + growth + reorg; e: phased poller announcements around cached-head reads
+	Shapes   string `json:"shapes"`           // e.g. "L1" or "L1+T1"
 	Batch    int    `json:"batch"`
 	Conc     int    `json:"conc"`
 	Free     bool   `json:"free"`  // step boundaries are free switches (all step-granular interleavings at bound 0)
@@ -55,6 +55,7 @@ func init() {
 		Rule: "scenarios: (a) one task with concurrency 2..4 (partitioned load), (b) two tasks sharing one source client and its caches with equal and different data plans (headers+logs, blocks, blocks+receipts, blocks+traces) over the same range, (c) = (b) plus the background head poller receiving ticks, (d) = (b) plus head growth and a reorg in flight, (a+faults) = (a) with an error reply injected at any one JSON-RPC exchange (error paths of a partitioned load next to succeeding siblings), (e) = (b) with the head poller announcing one head before and a grown head after the steps that read the cached head; " +
 			"per scenario every schedule with <= 1 preemption and <= 1 partition reordering (thorough: 2). An execution is non-trivial when at least two controlled threads of the code under test ran; distinct = distinct (job, choice sequence).",
 		Assumptions: []string{
+			"an execution whose replayed schedule prefix does not fit (observed once in ~10^5 executions of the thorough tier; the only wall-clock dependent code in the loop is net/http's 10 s Client.Timeout under the race detector's slowdown) is re-run up to 2 times and counted (transient_divergences_retried); a divergence that persists is a harness error",
 			"the Go race detector (ThreadSanitizer) decides each explored schedule; its report de-duplication means a racing pair is reported once per process, so violations are identified by the pair of source locations, not counted per schedule",
 			"simulators use real mutexes: they add happens-before edges a real out-of-process Postgres/node would not give (this can only hide, never invent, a race); the explorer compensates by preempting right after each access window",
 			"library-internal goroutines (pgx, net/http) run uncontrolled but are correctly synchronised by their own primitives",
@@ -455,7 +456,17 @@ func run(c *fw.Ctx) {
 		c.Count("selftest_racy_program_reported", 1)
 	}
 	log.mark()
+	explore.MaxRetry = 2
 	js := jobs(c.Thorough())
+	if os.Getenv("C18_FREEONLY") != "" { // development aid: only the jobs with free step boundaries
+		var sel []job
+		for _, j := range js {
+			if j.Free {
+				sel = append(sel, j)
+			}
+		}
+		js = sel
+	}
 	c.Bound("jobs", len(js))
 	c.Bound("deviations_per_execution", "1 (quick); thorough: 2 for the single-task scenario, 1 plus free step boundaries for the multi-task scenarios")
 	seen := map[string]bool{}
@@ -474,6 +485,12 @@ func run(c *fw.Ctx) {
 		st := explore.ExploreShard(b, true, c.Shard, c.NShards, func(r *explore.Run) bool {
 			res := exec(j, p, r, states, log)
 			if r.Foreign && res.harness == "" && r.Diverged == "" {
+				return !c.Expired()
+			}
+			if r.Diverged != "" && r.Attempt < explore.MaxRetry {
+				// the replayed prefix did not fit: re-run it (the only known source is wall-clock behaviour of net/http's
+				// client under the race detector's slowdown); a divergence that persists is a harness error below
+				c.Count("transient_divergences_retried", 1)
 				return !c.Expired()
 			}
 			if res.harness != "" {
